@@ -56,5 +56,5 @@ SPECIFICATION Spec
 			Rename: raftRename, SkipSpecVars: raftSkip, SkipGoGlobals: []string{"timeout"},
 		})
 	}
-	return out
+	return append(out, morePairs()...)
 }
